@@ -8,7 +8,7 @@ Theorem C09_policy : forall g i, Inv g ->
   (i ∈ prune_targets g <->
    exists t, g_tasks g !! i = Some t /\
      (if t_is_epic t
-      then forall k c, g_tasks g !! k = Some c -> t_is_epic c = false -> t_epic c = i -> done_or_canceled (t_state c) = true
+      then forall k c, g_tasks g !! k = Some c -> t_is_epic c = false -> t_epic c = i -> t_epic c <> "" -> done_or_canceled (t_state c) = true
       else done_or_canceled (t_state t) = true)).
 Proof. exact prune_targets_spec. Qed.
 Print Assumptions C09_policy.
